@@ -12,10 +12,13 @@
 //!        1 k m  receive k items (polling try_recv; gives up once the controller is done and the
 //!               channel is empty)   m: 0 hold | 1 send_back | 2 drop | 3 alternate hold / send_back
 //!        2 us 0 sleep               3 0 0 drop the receiver        4 k m  k single try_recv attempts
+//!        5 k 0  send back the k oldest payloads still held (mark 30 = item index precedes each)
+//!        6 n 0  wait until the controller's phase counter is >= n      7 0 0 bump the receiver's counter
 //!   nctl { op a b c }*                         controller program
 //!        10 start | 11 stop | 12 us sleep | 13 n wait until <= n transfers remain |
 //!        14 close | 15 drop the handle | 16 n wait until the receiver got n items |
-//!        17 addr width value poke device memory
+//!        17 addr width value poke device memory | 18 bump the phase counter |
+//!        19 n wait until the receiver's counter is >= n
 //! Output: 0 nitems item* -4 nheld flag* -3 nres res* -5 nev (role kind a b)* -6 remaining waits_timed_out
 //!   item = 0 id type valid ts has w h xo yo pf isz  pv(st len hash) iv(st len hash)   (18 ints)  |  1 class
 use std::panic::{catch_unwind, AssertUnwindSafe};
@@ -132,16 +135,19 @@ fn receiver_thread(
     prog: Vec<(i128, i128, i128)>,
     done: Arc<AtomicBool>,
     got: Arc<AtomicUsize>,
+    phase: Arc<AtomicUsize>,
+    rphase: Arc<AtomicUsize>,
 ) -> RecvOut {
     trace::set_role(2);
     trace::reseed();
     let mut rx = Some(rx);
     let mut out = RecvOut { items: vec![], nitems: 0, held: vec![] };
-    let mut held: Vec<(Payload, Option<i128>)> = vec![];
+    let mut held: Vec<(Payload, Option<i128>, usize)> = vec![];
     let mut parity = 0usize;
     let mut handle = |r: Result<Payload, StreamError>, m: i128, rx: &PayloadReceiver, out: &mut RecvOut,
-                      held: &mut Vec<(Payload, Option<i128>)>| {
+                      held: &mut Vec<(Payload, Option<i128>, usize)>| {
         out.nitems += 1;
+        let index = out.nitems - 1;
         match r {
             Ok(p) => {
                 out.items.extend(describe(&p));
@@ -154,7 +160,7 @@ fn receiver_thread(
                 match mode {
                     0 => {
                         let h = full_hash(&p);
-                        held.push((p, h));
+                        held.push((p, h, index));
                     }
                     1 => rx.send_back(p),
                     _ => drop(p),
@@ -202,11 +208,39 @@ fn receiver_thread(
                     std::thread::yield_now();
                 }
             }
+            5 => {
+                // send back the oldest payloads still held (possibly received before a restart);
+                // mark 30 names the item for the model side
+                let r = match rx.as_ref() {
+                    Some(r) => r,
+                    None => break,
+                };
+                for _ in 0..a {
+                    if held.is_empty() {
+                        break;
+                    }
+                    let (p, _, index) = held.remove(0);
+                    trace::mark(30, index as i64, 0);
+                    r.send_back(p);
+                }
+            }
+            6 => {
+                let t = Instant::now();
+                while phase.load(Ordering::SeqCst) < a as usize
+                    && !done.load(Ordering::SeqCst)
+                    && t.elapsed() < Duration::from_millis(10000)
+                {
+                    std::thread::sleep(Duration::from_micros(100));
+                }
+            }
+            7 => {
+                rphase.fetch_add(1, Ordering::SeqCst);
+            }
             _ => panic!("bad receiver op"),
         }
     }
     // payloads still held must be exactly what they were when received
-    for (p, h) in &held {
+    for (p, h, _) in &held {
         out.held.push(if full_hash(p) == *h { 1 } else { 0 });
     }
     drop(held);
@@ -260,7 +294,7 @@ fn run_case(c: &mut Cur) -> Vec<i128> {
     for _ in 0..c.int() {
         let op = c.int();
         let (a, b, d) = match op {
-            12 | 13 | 16 => (c.int(), 0, 0),
+            12 | 13 | 16 | 19 => (c.int(), 0, 0),
             17 => (c.int(), c.int(), c.int()),
             _ => (0, 0, 0),
         };
@@ -282,9 +316,11 @@ fn run_case(c: &mut Cur) -> Vec<i128> {
     let (sender, receiver) = cameleon::payload::channel(cap_p, cap_b);
     let done = Arc::new(AtomicBool::new(false));
     let got = Arc::new(AtomicUsize::new(0));
+    let phase = Arc::new(AtomicUsize::new(0));
+    let rphase = Arc::new(AtomicUsize::new(0));
     let rt = {
-        let (done, got) = (done.clone(), got.clone());
-        std::thread::spawn(move || receiver_thread(receiver, rprog, done, got))
+        let (done, got, phase, rphase) = (done.clone(), got.clone(), phase.clone(), rphase.clone());
+        std::thread::spawn(move || receiver_thread(receiver, rprog, done, got, phase, rphase))
     };
     let mut waits_timed_out = 0;
     let mut started = 0usize;
@@ -353,6 +389,14 @@ fn run_case(c: &mut Cur) -> Vec<i128> {
             17 => {
                 let bytes: Vec<u8> = (0..b as usize).map(|i| ((d as u128 >> (8 * i)) & 255) as u8).collect();
                 world.lock().unwrap().mem_write(a as u64, &bytes);
+            }
+            18 => {
+                phase.fetch_add(1, Ordering::SeqCst);
+            }
+            19 => {
+                if !wait(&|| rphase.load(Ordering::SeqCst) >= a as usize) {
+                    waits_timed_out += 1;
+                }
             }
             _ => panic!("bad controller op"),
         }
